@@ -27,6 +27,7 @@ type mNode struct {
 	entries []*mEntry
 	deleted bool
 	lazy    *mLazy
+	fs      int // hierarchy the directory was created in
 
 	// Leaves.
 	kind  leafKind
@@ -69,8 +70,8 @@ func (m *model) norm(s string) string {
 
 func (m *model) isHidden(name string) bool { return m.hiddenOn && strings.HasPrefix(name, ".hid") }
 
-func (m *model) newDir(lz *mLazy) *mNode {
-	n := &mNode{id: m.nextNode, dir: true, lazy: lz}
+func (m *model) newDir(fs int, lz *mLazy) *mNode {
+	n := &mNode{id: m.nextNode, dir: true, lazy: lz, fs: fs}
 	m.nextNode++
 	return n
 }
@@ -134,7 +135,7 @@ func (m *model) ensure(d *mNode) bool {
 	sort.Slice(items, func(i, j int) bool { return items[i].name < items[j].name })
 	for _, it := range items {
 		if it.dir {
-			m.attach(d, it.name, m.newDir(&mLazy{}))
+			m.attach(d, it.name, m.newDir(d.fs, &mLazy{}))
 		} else {
 			m.attach(d, it.name, m.newLeaf(kindFile))
 		}
@@ -245,6 +246,7 @@ const (
 	sStale    = virtual.StatusErrStale
 	sSymlink  = virtual.StatusErrSymlink
 	sInval    = virtual.StatusErrInval
+	sXDev     = virtual.StatusErrXDev
 	// sOther stands for "an error this harness has no name for".
 	sOther = virtual.Status(-1)
 )
@@ -252,7 +254,7 @@ const (
 var statusNames = map[virtual.Status]string{
 	sOK: "OK", sExist: "EEXIST", sIO: "EIO", sIsDir: "EISDIR", sNoEnt: "ENOENT", sNotDir: "ENOTDIR",
 	sNotEmpty: "ENOTEMPTY", sPerm: "EPERM", sStale: "ESTALE", sSymlink: "ESYMLINK", sInval: "EINVAL",
-	virtual.StatusErrXDev: "EXDEV", virtual.StatusErrAccess: "EACCES", sOther: "EOTHER",
+	sXDev: "EXDEV", virtual.StatusErrAccess: "EACCES", sOther: "EOTHER",
 }
 
 func sname(s virtual.Status) string {
@@ -358,7 +360,7 @@ func (m *model) opMkdir(d *mNode, name string, got virtual.Status) outcome {
 	if !ok {
 		return outcome{bad: bad}
 	}
-	n := m.newDir(&mLazy{})
+	n := m.newDir(d.fs, &mLazy{})
 	m.attach(d, name, n)
 	return outcome{node: n, applied: true}
 }
@@ -460,6 +462,8 @@ func (m *model) opRename(dOld *mNode, nOld string, dNew *mNode, nNew string, got
 			errs = append(errs, sIsDir)
 		case !newE.node.dir && oldE.node.dir:
 			errs = append(errs, sNotDir)
+		case newE.node.dir && oldE.node.dir && dOld.fs != dNew.fs:
+			errs = append(errs, sXDev)
 		case newE.node.dir && oldE.node.dir:
 			if !m.ensure(newE.node) {
 				errs = append(errs, sIO)
@@ -468,6 +472,10 @@ func (m *model) opRename(dOld *mNode, nOld string, dNew *mNode, nNew string, got
 			}
 		}
 	}
+	if oldE != nil && newE == nil && oldE.node.dir && dOld.fs != dNew.fs {
+		// A directory cannot move to another hierarchy.
+		errs = append(errs, sXDev)
+	}
 	ok, bad := verdict(got, errs)
 	if !ok {
 		return outcome{bad: bad}
@@ -475,6 +483,13 @@ func (m *model) opRename(dOld *mNode, nOld string, dNew *mNode, nNew string, got
 	if newE != nil && newE.node == oldE.node {
 		// Same file under both names (or the very same entry):
 		// POSIX demands that nothing happens.
+		if newE == oldE && nOld != nNew {
+			// Same entry under a different spelling (case
+			// folding): upstream keeps the old spelling, a
+			// POSIX style file system would adopt the new one.
+			// Accept both; listings are compared normalised.
+			m.exempt[dOld] = true
+		}
 		return outcome{applied: true}
 	}
 	n := oldE.node
@@ -573,7 +588,7 @@ func (m *model) opCreateChildren(d *mNode, children []childSpec, overwrite bool,
 				cp := *c.lazy
 				lz = &cp
 			}
-			n = m.newDir(lz)
+			n = m.newDir(d.fs, lz)
 		} else {
 			n = m.newLeaf(kindFile)
 		}
@@ -609,7 +624,7 @@ func (m *model) opCreateAndEnter(d *mNode, name string, got virtual.Status) outc
 		}
 		m.detach(d, e)
 		m.unlink(e.node)
-		n := m.newDir(&mLazy{})
+		n := m.newDir(d.fs, &mLazy{})
 		m.attach(d, name, n)
 		return outcome{applied: true, node: n}
 	}
@@ -621,7 +636,7 @@ func (m *model) opCreateAndEnter(d *mNode, name string, got virtual.Status) outc
 	if !ok {
 		return outcome{bad: bad}
 	}
-	n := m.newDir(&mLazy{})
+	n := m.newDir(d.fs, &mLazy{})
 	m.attach(d, name, n)
 	return outcome{applied: true, node: n}
 }
